@@ -110,6 +110,10 @@ SPECS["C12"] = dict(
         "Woodpile.Props.C12.oob_none",
         "Woodpile.Props.C12.std_search_ok",
         "Woodpile.Props.C12.find_sound",
+        # track misc2 (claim-audit, C12 table)
+        "Woodpile.Props.C12.find_tag_sound",
+        "Woodpile.Props.C12.empty_message",
+        "Woodpile.Props.C12.empty_message_trailing_bytes",
     ],
     families=[dict(name="tlvview", quick=3000, thorough=1500000)],
     technique="Lean 4 proof (all byte strings; checked slicing so that panic-freedom is a theorem) + model/implementation correspondence",
@@ -146,6 +150,16 @@ SPECS["C11"] = dict(
         "Woodpile.Props.C11.view_find",
         "Woodpile.Props.C11.reject_iff",
         "Woodpile.Props.C11.sorted_reject_iff",
+        # track misc2 (claim-audit gap 12): the sink-call level
+        "Woodpile.Props.C11.encode_pieces_flat",
+        "Woodpile.Props.C11.encode_calls_layout",
+        "Woodpile.Props.C11.calls_len_eq",
+        "Woodpile.Props.C11.nested_lawful_every_depth",
+        "Woodpile.Props.C11.dval_lawful",
+        "Woodpile.Props.C11.view_find_tag",
+        "Woodpile.Props.C11.reject_error_kind",
+        "Woodpile.Props.C11S.sink_agnostic_any_pieces",
+        "Woodpile.Props.C11S.sink_agnostic_driver",
     ],
     families=[dict(name="tlv", quick=3000, thorough=300000)],
     technique="Lean 4 proof (all pair lists, generic lawful value type, saturating usize/u32 arithmetic) + model/implementation correspondence",
@@ -350,6 +364,9 @@ SPECS["C15"] = dict(
         "Woodpile.Props.C15.zdeque_step_is_length_image",
         "Woodpile.Props.C15.zdeque_run_is_length_image",
         "Woodpile.Props.C15.zdeque_run_spec",
+        # track misc2 (claim-audit, C15 table): the checked Deref slice the drivers print
+        "Woodpile.Props.C15.deref_is_view",
+        "Woodpile.Props.C15.run_deref_refines_list",
     ],
     families=[dict(name="sdeque", quick=3000, thorough=200000)],
     technique="Lean 4 proof (representation invariant = check_rep, per-operation refinement of a List deque, induction over "
@@ -402,6 +419,16 @@ SPECS["C16"] = dict(
         "Woodpile.Props.C16.whole_item_lawful_of_distinct_keys",
         "Woodpile.Props.C16.whole_item_needs_distinct_keys",
         "Woodpile.Props.C16.pair_run_refines",
+        # track misc2 (claim-audit gap 17): persistence of removals, sortedness from any state, whole-item run level
+        "Woodpile.Props.C16.reference_sorted_from",
+        "Woodpile.Props.C16.reachable_sorted",
+        "Woodpile.Props.C16.present_key_found_impl",
+        "Woodpile.Props.C16.gone_stays_gone",
+        "Woodpile.Props.C16.removed_or_popped_vanishes",
+        "Woodpile.Props.C16.gone_stays_gone_increasing",
+        "Woodpile.Props.C16.gone_stays_gone_impl",
+        "Woodpile.Props.C16.whole_run_refines",
+        "Woodpile.Props.C16.whole_run_refines_of_keyed_values",
     ],
     families=[dict(name="sorted", quick=4000, thorough=200000)],
     technique="Lean 4 proof (ghost-list representation invariant, correctness of the modelled std binary search on sorted "
@@ -632,6 +659,10 @@ SPECS["C14"] = dict(
         "Woodpile.Props.C14.now_same_rule",
         "Woodpile.Props.C14.wrap_counterexample",
         "Woodpile.Props.C14.trunc_counterexample",
+        # track misc2 (claim-audit gap 20): raffle tags and the calendar range re-extracted from the resolved crates
+        "Woodpile.Props.C14.raffle_consts",
+        "Woodpile.Props.C14.raffle_names",
+        "Woodpile.Props.C14.local_range_consts",
     ],
     families=[dict(name="vtime", quick=3000, thorough=400000)],
     technique=("Lean 4 proof (integer/UInt64 arithmetic over all local times x 2^64 base times x 2^64 vouchers; ring identities "
@@ -867,6 +898,379 @@ SPECS["C05"]["theorems"] += [
 SPECS["C05"]["level_text"] += (' Run level: a whole Op history (whose backfill tokens are its own) and a whole HCOBS encoder run (no side condition) is '
     'ONE history of this vocabulary on the world whose handle table carries the tokens (op_run_is_wrun, enc_prefix_is_wrun, enc_run_is_wrun), so those '
     'worlds are Reachable exactly as C05 / C10 / C20 quantify.')
+
+# ---- track abt2 (claim-audit gaps 7, 10, 18): statement-strength additions for C13 / C18 / C19 ----
+SPECS["C13"]["theorems"] += [
+    "Woodpile.Props.C13.sc_fresh_update_accepted",
+    "Woodpile.Props.C13.sc_accepted_update_completes",
+    "Woodpile.Props.C13.sc_update_completed",
+    "Woodpile.Props.C13.sc_update_ignored_covered",
+    "Woodpile.Props.C13.sc_bookkeeping_exact",
+    "Woodpile.Props.C13.sc_calls_sound",
+    "Woodpile.Props.C13.sc_real_time_order",
+    "Woodpile.Props.C13.sc_completed_update_visible",
+    "Woodpile.Props.C13.ra_fresh_update_accepted",
+    "Woodpile.Props.C13.ra_accepted_update_completes",
+    "Woodpile.Props.C13.ra_update_completed",
+    "Woodpile.Props.C13.ra_update_ignored_covered",
+    "Woodpile.Props.C13.ra_view_monotone",
+    "Woodpile.Props.C13.ra_view_monotone_run",
+    "Woodpile.Props.C13.ra_sync_transfers_view",
+    "Woodpile.Props.C13.ra_bookkeeping_exact",
+    "Woodpile.Props.C13.ra_calls_sound",
+    "Woodpile.Props.C13.ra_return_view_kept",
+    "Woodpile.Props.C13.ra_program_order",
+    "Woodpile.Props.C13.ra_update_then_snapshot",
+    "Woodpile.Props.C13.ra_own_update_visible",
+    "Woodpile.Props.C13.ra_sync_order",
+    "Woodpile.Props.C13.ra_synced_update_visible",
+    "Woodpile.Props.C13.call_arguments_fixed",
+    "Woodpile.Props.C13.sc_only_holder_publishes",
+    "Woodpile.Props.C13.ra_only_holder_publishes",
+    "Woodpile.Props.C13.valid_update_returns",
+]
+SPECS["C18"]["theorems"] += [
+    "Woodpile.Props.C18.sc_retry_only_on_publish_during",
+    "Woodpile.Props.C18.ra_retry_only_on_publish_during",
+    "Woodpile.Props.C18.ra_solo_snapshot_terminates_uniform",
+    "Woodpile.Props.C18.ra_solo_is_run",
+    "Woodpile.Props.C18.ra_latest_admissible",
+    "Woodpile.Props.C18.unlocked_is_abt_snapshot",
+    "Woodpile.Props.C18.ra_solo_latest_terminates",
+]
+SPECS["C19"]["theorems"] += [
+    "Woodpile.Props.C19.chkNat_is_chkReal",
+    "Woodpile.Props.C19.init_cells_agree",
+    "Woodpile.Props.C19.seq_update_refines",
+    "Woodpile.Props.C19.seq_snapshot_refines",
+    "Woodpile.Props.C19.try_update_differs_only_when_poisoned",
+]
+SPECS["C13"]["level_text"] += (' Track abt2: the history is tied to CALLS. State form: an accepted call\'s pair is in hist at an index covered by '
+    'its own view of sequence (sc/ra_update_completed), an ignored call has seen a strictly newer published pair (…_ignored_covered), a fresh valid '
+    'argument is not ignored and then completes in four always-enabled steps (…_fresh_update_accepted, …_accepted_update_completes). Call form: '
+    'SC/RA.GReachable run the same step function next to pure bookkeeping (step counter, operation in progress, one CallRec per completed call with '
+    'the caller\'s view of sequence at start/return); the bookkeeping is exact (…_bookkeeping_exact); every completed call satisfies Mach.RecOK '
+    '(…_calls_sound); END TO END: an update(b,v) that returned, or a try_update(b,v)=true, whose return view is included in a snapshot\'s start view '
+    '(U.vRet <= S.vStart: happens-before) makes that snapshot return base >= b (ra_update_then_snapshot); the inclusion holds for calls of one thread in '
+    'program order (ra_program_order, ra_own_update_visible) and for a call of a thread that synchronised with the updater after the update returned (ra_sync_order, ra_synced_update_visible), views only grow and sync transfers them (ra_view_monotone(_run), ra_sync_transfers_view); '
+    'on SC "before" is real time: U\'s last step precedes S\'s start label (sc_real_time_order, sc_completed_update_visible).')
+SPECS["C18"]["level_text"] += (' Track abt2: ONE uniform termination statement on the view machine (ra_solo_snapshot_terminates_uniform: for every '
+    'adversarial but admissible reads-from strategy the solo reader returns within soloMeasure own steps; admissible strategies exist, '
+    'ra_latest_admissible, and reading the latest message gives the SC bound 6, ra_solo_latest_terminates; RA.solo is a machine run, ra_solo_is_run); a retry implies a newer sequence message that is beyond the snapshot\'s start '
+    '(start <= sq < new: …_retry_only_on_publish_during, both machines); unlocked_is_abt_snapshot is about the NFS model\'s own getBaseTimeUnlocked: '
+    'from any reachable SC state (writer frozen holding the lock, mutex poisoned or not) four loads, nothing shared changes, same pair.')
+SPECS["C19"]["level_text"] += (' Track abt2: the cell of the model is no longer an independent definition: cellUpdate / cellSnapshot / '
+    'getBaseTimeUnlocked ARE the AtomicBaseTime programs of C13/C18 (update, try_update, snapshot) run alone on the SC machine at the real voucher check '
+    'from a state whose writer mutex is free and unpoisoned (seq_update_refines, seq_snapshot_refines, init_cells_agree, chkNat_is_chkReal); try_update '
+    'differs from update only on a poisoned mutex (try_update_differs_only_when_poisoned), which no_panic keeps unreachable. nfs_voucher.rs has NO '
+    'module-wide mutex: the C19 theorems cover sequential histories only; for concurrent callers only C13/C18 on the cell carry over.')
+# C19's cell is, by C19.seq_update_refines / seq_snapshot_refines, the AtomicBaseTime programs of C13/C18 run alone; those programs
+# are tied to vouched_time/src/atomic_base_time.rs (a C19 anchor: "monotonic filter in the atomic cell") by the H3 trace validation
+# of family `abt`, so the C19 check runs that family too (a changed stale test in advance_once - e.g. `update.0 + 1 < current` -
+# moves the NFS base time backwards by 1 ms only for a file exactly 1 ms older than the base, which the real-file family `nfs`
+# almost never presents; found as a missed mutation by track abt2).
+SPECS["C19"]["families"] += [dict(name="abt", quick=600, thorough=20000)]
+
+# ---------------------------------------------------------------------------------------------
+# track misc2 (claim-audit gaps 12, 17, 20 and the C11/C12/C14/C15/C16 tables)
+SPECS["C11"]["level_text"] += (
+    " Sink-call level (track misc2): Wrapper.encodePieces is MessageWrapper::encode as the SEQUENCE OF ZeroCopySink CALLS it makes "
+    "(append_copy of every header word; per value append_borrow for Cow::Borrowed, append_copy for Cow::Owned / &[u8] / &str, the nested "
+    "call sequence for a message; a value whose to_rough_tlv panics makes encode panic). Proved: the calls concatenate to the byte-level "
+    "encoding of the other theorems (encode_pieces_flat), their exact shape for every accepted list (encode_calls_layout), their total = "
+    "rough_tlv_len (calls_len_eq); C11S.sink_agnostic is now about those calls: the HCOBS encoder model fed with exactly them by exactly "
+    "those methods ends holding Spec.encode prod (layout), nothing pending, and the batch and incremental decoders (any segmentation, any "
+    "method) give the layout back, which MessageView accepts. The lawfulness hypothesis of the byte-level theorems is discharged for "
+    "nested messages of every depth (nested_lawful_every_depth, a depth-indexed value type) and for every value the tlv family's state "
+    "machine can build (dval_lawful: that state machine, TlvSt.msg, lives in the model and is what the driver executes; its `panic` "
+    "answer to `enc` is proved dead). The error variant of every rejection is characterised (reject_error_kind), find_tag on emitted "
+    "bytes is sound and complete (view_find_tag). Correspondence: the harness wraps both real sinks in a pass-through recorder; `calls` "
+    "lines (method + length of every call, in order) and, for the hcobs::Encoder sink, the `wire` bytes after finish are compared with "
+    "the model's encodePieces and Enc.output prod of them; the oracle checks at the sink interface that the bytes handed over call by "
+    "call are the reference layout and total rough_tlv_len, that borrowed slices lie inside caller-owned buffers, and that the HCOBS "
+    "sink's output equals the one-call HCOBS encoding of the layout and contains no stuff sequence.")
+SPECS["C11"]["level_note"] += (
+    " The mapping from the harness's Rust value types to sink methods (Cow::Borrowed -> append_borrow, &[u8] -> append_copy, ...) is in "
+    "the driver's parser (methodOf) and is tied by the `calls` lines. A refactor that changes the call pattern without changing the "
+    "bytes (e.g. copying a borrowed Cow) breaks this tie and is reported as a model disagreement without a failing input.")
+SPECS["C12"]["level_text"] += (
+    " Track misc2: find_tag is sound and complete for any acceptable search and find = get_value(find_tag) (find_tag_sound); the "
+    "N = 0 case that the tiling clause has to exclude is stated on its own (empty_message: nothing is iterated, indexed or found; "
+    "empty_message_trailing_bytes: such a message with trailing bytes is accepted). The enumerated cases include pair counts 255, 256, "
+    "257 (300 in thorough): well-formed, last offset one past the payload, one byte cut off.")
+SPECS["C14"]["level_text"] += (
+    " Track misc2: WANTED_SUM / CHECKING_TAG / VOUCHING_TAG are re-read on every run from the raffle crate vouched_time resolves to "
+    "(`cargo metadata --offline --locked`, fallback Cargo.lock + registry source tree): the ASCII names inside named_u64(\"...\") and "
+    "the values; raffle_consts ties the model's literals to both (namedU64 of the extracted names = extracted value = model literal) "
+    "and records that check / vouch are textually the transcribed expressions; raffle_names pins the names. The calendar bounds "
+    "minLocalNs / maxLocalNs are tied to MIN_YEAR / MAX_YEAR re-read from the resolved time crate (local_range_consts, days-from-civil).")
+SPECS["C14"]["trusted_base"] = [t for t in SPECS["C14"]["trusted_base"] if not t.startswith("raffle crate")] + [
+    "raffle crate: check.rs / vouch.rs are re-modelled; constants, names and the textual shape of the two expressions are re-extracted "
+    "from the resolved crate source on every run, the arithmetic is compared numerically by the vtime family"]
+SPECS["C15"]["level_text"] += (
+    " Track misc2: the checked Deref slice the drivers print (&container[consumed..], a panic if out of range) is proved to be the "
+    "total `view` of the other theorems under the invariant (deref_is_view), and equal to the reference deque's contents after every "
+    "operation sequence (run_deref_refines_list).")
+SPECS["C16"]["level_text"] += (
+    " Track misc2, run level: the reference stays strictly sorted, and every iteration result is ascending, from ANY sorted start "
+    "(reference_sorted_from) and from every state of the real deque's model under the invariant (reachable_sorted). Gone stays gone: "
+    "once any operation makes a present item vanish (remove, either pop, clear), then in every later state of every continuation that "
+    "does not push its key again the key is not found, not iterated and in no result (gone_stays_gone; removed_or_popped_vanishes "
+    "shows remove and the pops are such operations); for histories whose live pushes increase globally - the property's 'increasing "
+    "keys' - no side condition is needed and the reference never hits the specified panic (gone_stays_gone_increasing); the same on "
+    "the model of the real code (gone_stays_gone_impl: find = None, iter free of the key, no result carries it). Whole-item ordering: "
+    "every history passing the decidable check wholeKeysDistinct is refined (whole_run_refines), and histories whose pushed value is a "
+    "function of the key - the family's value = 10*key+1 regime - pass it (whole_run_refines_of_keyed_values).")
+SPECS["C11"]["level_note"] = SPECS["C11"]["level_note"].replace(
+    "The HCOBS sink is checked by the harness oracle only (sink-agnosticism is a C02/C01 matter).",
+    "The HCOBS sink is checked by the oracle, by correspondence (`wire` lines against the encoder model run on the model's calls) and by "
+    "C11S.sink_agnostic (composition with the C01/C02 refinement theorems).")
+
+# ---- track hc3: statement-strength gaps of the HCOBS codec / stream-reader theorems (claim audit, TOP GAPS 9, 16, 19)
+# gap 9: "never panics" is an OUTCOME of the executable model (Model/HcobsP, Model/StreamP; the drivers run these), proved unreachable
+_HC3_DEC = [
+    "Woodpile.Props.C07P.dec_once_never_panics",
+    "Woodpile.Props.C07P.dec_call_never_panics",
+    "Woodpile.Props.C07P.dec_object_call_never_panics",
+    "Woodpile.Props.C07P.dec_session_never_panics",
+    "Woodpile.Props.C07P.dec_calls_reachable",
+    "Woodpile.Props.C07P.dec_after_error_is_fresh",
+    "Woodpile.Props.C07P.dec_calls_split",
+    "Woodpile.Props.C07P.dec_finish_after_error",
+    "Woodpile.Props.C07P.dec_failed_call_appends",
+    "Woodpile.Props.C07P.output_of_session",
+    "Woodpile.Props.C07P.dec_first_error_classified",
+    "Woodpile.Props.C07P.dec_output_until_error",
+    "Woodpile.Props.C07P.dec_failed_output_split_independent",
+]
+_HC3_ENC = [
+    "Woodpile.Props.C07P.enc_once_never_panics",
+    "Woodpile.Props.C07P.enc_call_never_panics",
+    "Woodpile.Props.C07P.enc_call_dreachable",
+    "Woodpile.Props.C07P.enc_finish_never_panics",
+    "Woodpile.Props.C07P.enc_run_never_panics",
+]
+_HC3_SEG = [
+    "Woodpile.Props.C08S.segments_sound",
+    "Woodpile.Props.C08S.segments_complete",
+    "Woodpile.Props.C08S.segments_tile",
+    "Woodpile.Props.C08S.segments_unique",
+]
+_HC3_PANIC_TEXT = (' Never panics (track hc3, Props/C07P): Model/HcobsP re-states consume_once / encode_header / write / copy / '
+    'write_partial_stuff_sequence / terminate / the encode_* loops and the four decoder state functions / InChunk::update / the decode_* loops '
+    'with a `panic file line` OUTCOME at every assert!, assert_eq!, unwrap(), slice index or range, and overflow-checked usize / u32 operation '
+    '(64-bit usize, NonZeroU32 remaining, `as u32` / `as u8` truncations), plus backfill_or_panic finding the placeholder; the model driver runs '
+    'these functions (a model panic prints `panic`, as the harness does for a real one). Kernel-checked: for every reachable state (incl. any '
+    'consumer drains in between), every input, every segmentation and method choice and every Params.Valid, xP = ok (x): the panic outcome is '
+    'unreachable and what runs is exactly the panic-free model the other theorems are about (enc_once/call/finish/run_never_panics, '
+    'dec_once/call/session_never_panics). Decoder object after an error (gap 19): Decoder::decode swaps Default::default() into self.state and '
+    'returns early on Err, so the object stays usable in InitialState over the same iovec (output pushed before the error stays, incl. the stuff '
+    'sequence BeforeChunk::decode pushes before validating the header byte); Dec.call / calls / session model exactly that, model driver and '
+    'harness continue a decoder run after an error, and dec_after_error_is_fresh / dec_calls_split / dec_finish_after_error (CutShort) / '
+    'output_of_session (the convention "first Err is the verdict" of Dec.output is derived from the session) are proved; the harness oracle judges '
+    'the input fed since the last error against a reference decoder and a fresh real decoder.')
+for _pid in ("C01", "C07"):
+    SPECS[_pid]["lean_modules"] += ["Woodpile.Props.C07P"]
+    SPECS[_pid]["theorems"] += _HC3_DEC + _HC3_ENC
+    SPECS[_pid]["level_text"] += _HC3_PANIC_TEXT
+SPECS["C02"]["lean_modules"] += ["Woodpile.Props.C07P"]
+SPECS["C02"]["theorems"] += _HC3_DEC + _HC3_ENC
+
+# gap 16 + the reader's share of gap 9 (C06); segments characterised (C06, C08)
+SPECS["C06"]["lean_modules"] += ["Woodpile.Props.C07P", "Woodpile.Props.C08S"]
+SPECS["C06"]["theorems"] += _HC3_DEC + _HC3_ENC + _HC3_SEG + [
+    "Woodpile.Props.C06U.reader_never_trips_decoder",
+    "Woodpile.Props.C06U.reader_feeds_reachable_states",
+    "Woodpile.Props.C06U.reader_keepgoing_blocks",
+    "Woodpile.Props.C06U.reader_std_judge_blocks",
+    "Woodpile.Props.C06U.blocks_constant",
+    "Woodpile.Props.C06U.resync_std",
+    "Woodpile.Props.C06U.resync_keepgoing",
+    "Woodpile.Props.C06U.placed_shapes",
+]
+SPECS["C06"]["level_text"] += (' Track hc3 (Props/C06U, C08S, C07P): (1) "without panicking" includes the embedded decoder: the model driver runs nextP = '
+    'next_record_bytes over the panic-aware decoder of Model/HcobsP (every assert / unwrap / index / checked arithmetic of decoder.rs is a panic outcome '
+    'that makes the call return panic); reader_never_trips_decoder proves nextP = next from every reader state, because every decoder state the reader '
+    'feeds is DecProof.Reachable (reader_feeds_reachable_states). (2) io_block_size is an argument of next_record_bytes and may change between calls: '
+    'reader_keepgoing_blocks / reader_std_judge_blocks give the same result lists for one block size PER CALL. (3) segments is characterised without '
+    'reference to the scan: sound (exact range, FE FD-free, delimited by stuff sequences or stream start/end), complete, tiling, and unique (any '
+    'decomposition of the stream into FE FD-free pieces joined by FE FD is segments: the pieces are maximal). (4) Resynchronisation is stated with the '
+    'encoder: wherever Spec.encode prod d sits (a FE FD . FE FD b / . FE FD b / a FE FD . / alone; a, b arbitrary), with |d| <= max and start before the '
+    'limit, one of the first |segments| calls returns exactly (d, start .. start+|encoding|), for the standard judge (resync_std) and the always-KeepGoing '
+    'judge (resync_keepgoing), any read schedule, any block size per call. One judge per run remains (a judge that changes between calls is exercised by '
+    'correspondence only).')
+# target 4: SplitIndep prod is discharged (C06U.split_indep_prod), not trusted
+SPECS["C06"]["level_note"] = SPECS["C06"]["level_note"].replace(
+    "the SplitIndep hypothesis until the coordinator discharges it from the decoder refinement theorem.",
+    "the SplitIndep hypothesis of Props/C06 is discharged unconditionally by C06U.split_indep_prod (from C01.dec_impl_refines_spec); "
+    "the headline theorems are the unconditional ones of Props/C06U.")
+SPECS["C06"]["trusted_base"] = ["std::io::Read::chain semantics"]
+
+SPECS["C08"]["lean_modules"] += ["Woodpile.Props.C08S"]
+SPECS["C08"]["theorems"] += _HC3_SEG
+SPECS["C08"]["level_text"] += (' Track hc3 (Props/C08S): the specification function segments, to which the chunks regroup, is itself characterised: every segment '
+    'is an FE FD-free piece at exactly its range delimited by stuff sequences or the stream start/end (segments_sound), every such piece is a segment '
+    '(segments_complete), the segments joined by FE FD are the stream with consecutive ranges (segments_tile), and the decomposition is unique, i.e. the '
+    'pieces are maximal (segments_unique).')
+
+# ---- track anch: the codecs' ANCHORED input method in the proved single-iovec vocabulary; the `_partial` restriction
+# ---- ("borrow/copy input methods only") of Props/C01W, C02W, C09W lifted by Props/C01G, C02G, C09H
+SPECS["C01"]["lean_modules"] += ["Woodpile.Props.C01G"]
+SPECS["C01"]["theorems"] += [
+    "Woodpile.Props.C01G.run_extends",
+    "Woodpile.Props.C01G.read_piece",
+    "Woodpile.Props.C01G.encWorld_no_panic",
+    "Woodpile.Props.C01G.encWorld_is_ops",
+    "Woodpile.Props.C01G.encWorld_abs_between_calls",
+    "Woodpile.Props.C01G.encWorld_abs",
+    "Woodpile.Props.C01G.enc_world_output",
+    "Woodpile.Props.C01G.world_roundtrip",
+    "Woodpile.Props.C01G.dec_world_output",
+    "Woodpile.Props.C01G.world_roundtrip_both",
+]
+SPECS["C01"]["level_text"] += (' Props/C01G (track anch) LIFTS the `_partial` restriction of Props/C01W: the call vocabulary EncWorld.ACall adds '
+    'encode_read / decode_read with an arbitrary scripted reader (= read_n into the codec\'s OWN arena, then encode_anchored / decode_anchored: '
+    'OwningIovec::push of sub-slices of the returned chunk slice — copied when small, borrowed and possibly merged otherwise — then push_anchor; '
+    'Model/EncWorld.encodeRead / decodeRead, the functions Driver/CodecW replays for the op words `feed a` and `feed_read`), and every C01W theorem is '
+    'restated over it without the suffix (run_extends: the old vocabulary is embedded). Anchored input from a FOREIGN arena is, for the iovec\'s content, '
+    'the borrow method (memory that outlives the iovec) and is covered as such. At the state-machine level the anchored method IS the borrow method '
+    '(encode_anchored calls self.encode(slice)), which is why Hcobs.Method has two constructors and Driver/Hcobs.parseMethod maps a / r to borrow. '
+    'Underneath, the single-iovec invariant IovInv (Proofs/IovecInv) now says owned slices are pairwise disjoint (not allocation-ordered) and '
+    'allows zero-count anchors; Proofs/IovecAnch has the held-arena-slice lemmas (read_n, push of held memory, push_anchor).')
+SPECS["C02"]["lean_modules"] += ["Woodpile.Props.C02G"]
+SPECS["C02"]["theorems"] += [
+    "Woodpile.Props.C02G.enc_world_no_stuff",
+    "Woodpile.Props.C02G.enc_world_split_independent",
+    "Woodpile.Props.C02G.enc_world_length_bound_prod",
+]
+SPECS["C02"]["level_text"] += (' Props/C02G (track anch) lifts the `_partial` restriction of Props/C02W: no-stuff, split/method/drain independence and the '
+    'production length bound on the structural iovec for ALL input methods (borrow, copy, anchored reads with any reader behaviour; vocabulary '
+    'EncWorld.ACall, see C01).')
+SPECS["C09"]["lean_modules"] += ["Woodpile.Props.C09H"]
+SPECS["C09"]["theorems"] += [
+    "Woodpile.Props.C09H.enc_lag_struct",
+    "Woodpile.Props.C09H.enc_lag_le_partial",
+    "Woodpile.Props.C09H.dec_lag_zero_world",
+    "Woodpile.Props.C09H.enc_drained_stable_prefix",
+    "Woodpile.Props.C09H.enc_drained_complete",
+    "Woodpile.Props.C09H.enc_slices_in_cap",
+    "Woodpile.Props.C09H.enc_lag_le",
+    "Woodpile.Props.C09H.enc_lag_le_prod",
+]
+SPECS["C09"]["level_text"] += (' Props/C09H (track anch) lifts the method restriction of Props/C09W: the exact structural lag of the encoder-driven iovec '
+    '(enc_lag_struct) and decoder lag 0 (dec_lag_zero_world) hold for ALL input methods (EncWorld.ACall: borrow, copy, anchored reads). '
+    'C09H.enc_lag_le_partial keeps the in-capacity fact as a hypothesis (as C09W, hence the name); C09H.enc_lag_le / enc_lag_le_prod DISCHARGE it for all input '
+    'methods by a direct capacity invariant along the run (Proofs/EncWorldCap): lag < S + max(maxInit,maxSub) where S is the largest chunk the arena tuning '
+    'allocates for requests up to B and every anchored read asks for at most B bytes; production tuning, reads < 2^20 bytes: lag < 2^20 + 64008 + 2 '
+    '(with anchored reads of 2^20 bytes or more the arena chunk, hence the constant, grows with the largest count requested - the property\'s "one arena chunk"). The PREFIX clause on the structural iovec '
+    '(enc_drained_stable_prefix): between the calls of any run, drained ++ bytes of the first n slices, n = Iov.stableCount (what the driver prints through), '
+    'is a prefix of Spec.encode of the whole input whatever calls follow; enc_drained_complete: nothing is lost at the end.')
+SPECS["C17"]["lean_modules"] += ["Woodpile.Props.C17W"]
+SPECS["C17"]["theorems"] += [
+    "Woodpile.Props.C17W.codec_read_n",
+    "Woodpile.Props.C17W.encode_read_spec",
+    "Woodpile.Props.C17W.encode_read_failed_bump",
+    "Woodpile.Props.C17W.read_is_feed_of_delivered",
+    "Woodpile.Props.C17W.dec_read_is_feed_of_delivered",
+]
+SPECS["C17"]["level_text"] += (' Props/C17W (track anch): the codec-level clauses. Encoder/Decoder read_n, encode_read and decode_read are Model functions now '
+    '(Model/EncWorld: readOwn, encodeRead, decodeRead - the ones Driver/CodecW replays for `feed a` / `feed_read`): the codec\'s read_n is ReadN.readNCore on the '
+    'iovec\'s own arena with ReadN.readN\'s arena effect (so read_n_spec / read_n_releases_unread apply verbatim), returns a slice of at most count bytes holding '
+    'exactly the bytes read, and leaves the iovec\'s slices and bytes untouched (codec_read_n); between the calls of any encoder run encode_read never panics, a '
+    'failed read changes nothing but the arena, whose bump pointer is back where ensure_capacity left it, and a successful one leaves the state encode of exactly '
+    'those bytes leaves (encode_read_spec, encode_read_failed_bump); in any run an encode_read / decode_read can be replaced by encode / decode of the delivered '
+    'bytes (by nothing when it failed) without changing output or verdict (read_is_feed_of_delivered, dec_read_is_feed_of_delivered).')
+SPECS["C03"]["lean_modules"] += ["Woodpile.Props.C03G"]
+SPECS["C03"]["theorems"] += [
+    "Woodpile.Props.C03G.aop_refines",
+    "Woodpile.Props.C03G.read_push_no_panic",
+    "Woodpile.Props.C03G.read_push_appends",
+    "Woodpile.Props.C03G.reachable_refines",
+    "Woodpile.Props.C03G.reachable_facts",
+]
+SPECS["C03"]["level_text"] += (' Props/C03G (track anch): the vocabulary extended with ANCHORED pushes. AOp = Op + the composite readPush (read_n into the iovec\'s own '
+    'arena with a scripted, possibly faulty reader; OwningIovec::push of the sub-slices of the returned slice selected by a cut list, in order - copied or borrowed '
+    'arena memory, merged when adjacent -; push_anchor): it never panics, preserves the structural invariant and refines append of exactly the selected pieces of '
+    'the bytes read; every AOp history from the initial world refines the abstract pipe (reachable_refines), sizes / non-empty slices / hole-free stable prefix '
+    'included (reachable_facts). For this the invariant IovInv was weakened: owned slices pairwise disjoint (not allocation-ordered), zero-count anchors allowed. '
+    'Scope: own-arena anchored slices pushed as one composite; interleaving with register_patch/backfill is the encoder\'s pattern (Props/C01G); foreign '
+    'AnchoredSlices, clone/take/arena swap remain C20\'s multi-object vocabulary.')
+
+# ---- track apigaps: the remaining public API of owning_iovec (Model/IovecApi.lean, op words of fam_iovec/api.rs)
+SPECS["C03"]["lean_modules"] += ["Woodpile.Props.C03A"]
+SPECS["C03"]["theorems"] += [
+    "Woodpile.Props.C03A.new_from_slices_abs",
+    "Woodpile.Props.C03A.from_iter_abs",
+    "Woodpile.Props.C03A.new_from_slices_arena_abs",
+    "Woodpile.Props.C03A.from_iter_then_run",
+    "Woodpile.Props.C03A.front_is_first_stable",
+    "Woodpile.Props.C03A.iter_is_stable_prefix",
+    "Woodpile.Props.C03A.flatten_into_appends",
+    "Woodpile.Props.C03A.stable_views_complete",
+    "Woodpile.Props.C03A.read_takes_stable_prefix",
+    "Woodpile.Props.C03A.sink_refines",
+    "Woodpile.Props.C03A.stable_consumer_calls",
+]
+SPECS["C03"]["level_text"] += (' Props/C03A (track apigaps): the public entry points outside that vocabulary are modelled one by one in '
+    'Model/IovecApi.lean and exercised by the iovec family (op words from_iter, from_iter_ref, new_from_slices_arena, front, iter, flatten_into, '
+    'stable, try_stable, sc_consume/sc_advance/sc_read/sc_pop, sink_copy/sink_borrow through dyn / &mut T, is_last, a_clone, s_default, bref_default, '
+    'new_default, c_reserve): FromIterator (both impls) and new_from_slices with an arena build an iovec that satisfies the invariant and abstracts to '
+    'the pipe holding the concatenation (every C03/C04 theorem continues from it: from_iter_then_run); front / IntoIterator / iovs / flatten / '
+    'flatten_into(dst) / StableIovec::{iovs, flatten, flatten_into} return the stable bytes in order with dst kept in front; Read as the crate writes it '
+    '(front + advance_slices) is readInto; ZeroCopySink is push_copy / push; consumer calls through a StableIovec or the Err side of stable_consumer '
+    'are the plain consumer calls. The harness oracle checks every new accessor against stable_prefix() and the shadow buffer.')
+SPECS["C04"]["lean_modules"] += ["Woodpile.Props.C04A"]
+SPECS["C04"]["theorems"] += [
+    "Woodpile.Props.C04A.accessors_ok_iff_no_pending",
+    "Woodpile.Props.C04A.front_and_iter_before_first_hole",
+    "Woodpile.Props.C04A.read_stops_before_placeholder",
+]
+SPECS["C04"]["level_text"] += (' Props/C04A (track apigaps): iovs / flatten / flatten_into(dst) / stable_consumer / StableIovec::try_from now have model '
+    'functions (Model/IovecApi.lean: a Result<T,T> is (isOk, payload)) that the driver prints and the correspondence run compares: all four are Ok '
+    'exactly when the pipe has no hole, and Ok or Err the payload is the stable prefix (byte cells at the front of the pipe, dst kept in front); '
+    'front / iteration hand out stable slices only; Read as the crate writes it (front + advance_slices) stops before the first placeholder.')
+SPECS["C05"]["lean_modules"] += ["Woodpile.Props.C05A"]
+SPECS["C05"]["theorems"] += [
+    "Woodpile.Props.C05A.from_iter_is_wstep",
+    "Woodpile.Props.C05A.sink_is_wstep",
+    "Woodpile.Props.C05A.defaults_are_wsteps",
+    "Woodpile.Props.C05A.stable_consumer_is_wstep",
+    "Woodpile.Props.C05A.new_from_slices_arena_is_wrun",
+    "Woodpile.Props.C05A.accessors_return_stable_slices",
+    "Woodpile.Props.C05A.accessors_exposed_live",
+]
+SPECS["C05"]["level_text"] += (' Model identity (audit gap 6): the Lean driver of the iovec family no longer wires the model functions a second time - '
+    'it parses every op line into WOp values and computes the next world with World.step / World.run, the very function these theorems quantify over '
+    '(Driver/Iovec.lean: parseWOp, stepWOp; World.step = none is classified as bad-op / caught wrong-size backfill panic / panic). Props/C05A (track apigaps): '
+    'the op words added for the rest of the public API (from_iter, ZeroCopySink, ByteArena::clone, Backref::default, consumer calls through a StableIovec) '
+    'are executed as the WOp steps they are proved equal to, and front / iteration / iovs / StableIovec::iovs hand out slices of the stable prefix only, so '
+    'exposed_live covers them.')
+# rough_tlv: MessageView::inner / into_inner, Tag conversions and ordering (Model/RoughTlvApi.lean)
+SPECS["C12"]["lean_modules"] += ["Woodpile.Props.C12A"]
+SPECS["C12"]["theorems"] += [
+    "Woodpile.Props.C12A.inner_is_input",
+    "Woodpile.Props.C12A.tag_value_of_u32",
+    "Woodpile.Props.C12A.tag_of_value",
+    "Woodpile.Props.C12A.tag_order_is_value_order",
+]
+SPECS["C12"]["level_text"] += (" Props/C12A (track apigaps): inner()/into_inner() return the bytes the view was built from (printed and compared on every "
+    "view); Tag as the crate stores it (4 bytes): u32 <-> Tag <-> [u8;4] round trips, Ord/PartialOrd = order of the little-endian values (op `tag a b` "
+    "of the tlvview family: every From/Into impl, new, new_from_u32, value, cmp, partial_cmp, <, == on pairs whose byte order and value order differ).")
+# vouched_time: VouchedTime::new_or_die / now_or_die (Model/VouchedTimeApi.lean)
+SPECS["C14"]["lean_modules"] += ["Woodpile.Props.C14A"]
+SPECS["C14"]["theorems"] += [
+    "Woodpile.Props.C14A.new_or_die_cases",
+    "Woodpile.Props.C14A.new_or_die_rule",
+    "Woodpile.Props.C14A.now_or_die_same_rule",
+]
+SPECS["C14"]["level_text"] += (" Props/C14A (track apigaps): the _or_die constructors (ops new_or_die / now_or_die of the vtime family) return a value "
+    "exactly inside the same window and die everywhere else; never a VouchedTime outside the rule.")
+# hcobs::find_stuff_sequence called directly (op `find` of hcobs_enc)
+SPECS["C02"]["lean_modules"] += ["Woodpile.Props.C02A"]
+SPECS["C02"]["theorems"] += ["Woodpile.Props.C02A.find_stuff_sequence_spec"]
+SPECS["C02"]["level_text"] += (" Props/C02A (track apigaps): the public hcobs::find_stuff_sequence is exercised on its own (op `find`: FE/FD runs, a pair at every "
+    "position incl. the last two bytes) against Spec.findStuff, characterised exactly (first occurrence / none). The production Encoder is also fed through its "
+    "ZeroCopySink impl behind `dyn` (methods S / T of hcobs_enc, model = the borrow / copy methods).")
 
 # ---- track scale: LARGE-MAGNITUDE / LONG-HISTORY generator profiles (harness/src/scale_*.rs).  The families wrap the
 # existing executors, and `wpmodel scale_*` wraps the existing model drivers (lean/Woodpile/Driver/Scale.lean): run-length ops
